@@ -823,15 +823,16 @@ class DataType(object):
         if split_data_type[1] == 'decimal':
             decimal_precision = split_data_type[3]
             try:
-                return {('%.' + decimal_precision + 'f') % Decimal(value) for value in values}
-            except (TypeError, decimal.InvalidOperation):
+                # Note that the % operator converts decimals into floats, loosing precision.
+                return {format(Decimal(value), '.' + decimal_precision + 'f') for value in values}
+            except (TypeError, ValueError, decimal.InvalidOperation):
                 raise EDXMLEventValidationError(
                     'Invalid decimal value in list: "%s"' % '","'.join([repr(value) for value in values])
                 )
         elif split_data_type[1] == 'currency':
             try:
-                return {'%.4f' % Decimal(value) for value in values}
-            except (TypeError, decimal.InvalidOperation):
+                return {format(Decimal(value), '.4f') for value in values}
+            except (TypeError, ValueError, decimal.InvalidOperation):
                 raise EDXMLEventValidationError(
                     'Invalid currency value in list: "%s"' % '","'.join([repr(value) for value in values])
                 )
